@@ -1,5 +1,6 @@
 #![allow(dead_code)]
 mod c10;
+mod c16;
 mod circ;
 mod corpus;
 mod util;
@@ -14,6 +15,8 @@ fn main() {
     match args[1].as_str() {
         "reg-convert" => c10::cmd_convert(rest),
         "reg-convert-corpus" => c10::cmd_convert_corpus(rest),
+        "c16-replay" => c16::cmd_replay(rest),
+        "c16-products" => c16::cmd_products(rest),
         "compile-one" => corpus::cmd_compile_one(rest),
         "corpus-classify" => corpus::cmd_classify(rest),
         c => {
